@@ -172,6 +172,10 @@ def gen_case(rng, op=None):
     D = rng.choice([1, 2, 2, 2, 3, 3, 3, 4])
     F = rng.choice([0, 1, 1, 2, 2, 3])
     P = rng.choice([0, 1, 1, 1, 2])
+    if op in ("focus", "augment2d") and rng.random() < 0.8:
+        D = rng.choice([2, 2, 3, 3, 3, 4])
+    if op == "focus" and rng.random() < 0.8:
+        F, P = max(F, 1), max(P, 1)
     ncomp = rng.choice([1, 2, 2, 3, 4])
     comps = [rng.choice([0, 1, 1, 2, 2, 3, 4]) if rng.random() < 0.25 else rng.randrange(1, 5) for _ in range(ncomp)]
     N = sum(comps)
@@ -180,6 +184,8 @@ def gen_case(rng, op=None):
     data = [gen_value(rng, dt, style) for _ in range(F * P * N * D)]
     # missing pattern: per point, with whole components missing in some / all (frame, person) cells
     pat = rng.choice(["none", "random", "random", "comp_cell", "comp_all", "all", "one_left"])
+    if op == "focus" and pat == "all" and rng.random() < 0.7:
+        pat = "random"
     conf = []
     dead_comp = rng.randrange(ncomp)
     for f in range(F):
@@ -306,7 +312,7 @@ class C15(common.Prop):
         import pose_format  # noqa: F401  (fail early if the implementation cannot be imported)
 
     def gen_cases(self, rng, tier):
-        n = 500 if tier == "quick" else 9000
+        n = 600 if tier == "quick" else 100000
         for _ in range(n):
             yield gen_case(rng)
 
@@ -439,8 +445,8 @@ class C15(common.Prop):
             return D < 2
         obs = self.observed(case)
         if op == "focus":
-            # no extent without an observed value on every axis; PoseHeaderDimensions needs width and height
-            return D < 2 or not all(obs[:, d].any() for d in range(D))
+            # PoseHeaderDimensions needs width and height; no extent without an observed value on an axis it measures
+            return D < 2 or not all(obs[:, d].any() for d in range(min(D, 3)))
         if op == "bbox":
             return sum(case["comps"]) > N
         return False
@@ -559,14 +565,17 @@ class C15(common.Prop):
                 return fail("header", "focus changed the header components")
             if D >= 1 and np.any(obs):
                 ys = np.where(obs, y, np.inf)
-                if np.any(ys.min(axis=0) != 0):
+                seen = obs.any(axis=0)      # (per-element masks only: an axis beyond the third may have no observed value)
+                if np.any(ys.min(axis=0)[seen] != 0):
                     return fail("min-zero", "after focus the smallest observed coordinate is %s, not 0" % ys.min(axis=0).tolist())
                 # a pure translation, the same for every point
                 if np.any(obs):
                     diff = np.where(obs, x.astype(np.float64) - y, np.nan)
-                    mins = np.array([Fraction(float(np.min(x[obs[:, d], d]))) for d in range(D)])
-                    maxs = np.array([Fraction(float(np.max(x[obs[:, d], d]))) for d in range(D)])
+                    mins = np.array([Fraction(float(np.min(x[obs[:, d], d]))) if seen[d] else Fraction(0) for d in range(D)])
+                    maxs = np.array([Fraction(float(np.max(x[obs[:, d], d]))) if seen[d] else Fraction(0) for d in range(D)])
                     for d in range(D):
+                        if not seen[d]:
+                            continue
                         col = diff[obs[:, d], d]
                         tol = 2.0 ** (-22 if case["dtype"] == "f32" else -50) * max(1.0, float(abs(mins[d])), float(abs(maxs[d])))
                         if np.any(np.abs(col - float(mins[d])) > tol):
@@ -612,6 +621,8 @@ class C15(common.Prop):
                                     if miss != (not any_pt):
                                         return fail("missing-iff-none", "box of component %d (frame %d, person %d) is %s but the component has %s observed points"
                                                     % (ci, f, p, "missing" if miss else "present", "some" if any_pt else "no"), comp_points=n)
+                                if not miss and vals.size == 0:
+                                    return fail("tight", "box of component %d (frame %d, person %d, axis %d) is present but nothing is observed there" % (ci, f, p, d))
                                 if not miss and float(red(vals)) != float(yb[f, p, 2 * ci + which, d]):
                                     return fail("tight", "box of component %d (frame %d, person %d, axis %d) is %r, the %s of the observed points is %r"
                                                 % (ci, f, p, d, float(yb[f, p, 2 * ci + which, d]), red.__name__, float(red(vals))))
